@@ -334,3 +334,17 @@ package meta
 //@   loop 2: invariant -1 <= rangeindex && rangeindex < rangelen && rangelen == len(lit.Rune) && lit == core.Sub[1] && lit != nil && (forall k :: 0 <= k && k <= rangeindex ==> lit.Rune[k] != 10)
 //@   loop 2: invariant core != nil && core.Op == 18 && len(core.Sub) == 2 && core.Sub[0].Op == 14 && (core.Sub[0].Flags & 32) == 0 && len(core.Sub[0].Sub) == 1 && core.Sub[0].Sub[0].Op == 5 && core.Sub[1].Op == 3 && (core.Sub[1].Flags & 1) == 0 && 1 <= len(core.Sub[1].Rune) && len(core.Sub[1].Rune) <= 16
 //@   loop 2: decreases rangelen - rangeindex
+
+// ---- C19: digit-run skipping. After a failed attempt at a digit position the whole digit run may be skipped only if
+// every digit extends the leading repetition, i.e. its class is exactly [0-9] (for [0-5]+\.[0-9]+ on "1923.5" the
+// attempt at '1' dies at '9' although "23.5" matches) ----
+//@ func isDigitOnlyClass
+//@   props C19
+//@   ensures result <==> (len(runes) > 0 && len(runes) % 2 == 0 && (forall j :: 0 <= j && j + 1 < len(runes) && j % 2 == 0 ==> 48 <= runes[j] && runes[j+1] <= 57))
+//@   loop 1: invariant 0 <= i && i % 2 == 0 && i <= len(runes) && len(runes) % 2 == 0 && len(runes) > 0 && (forall j :: 0 <= j && j < i && j % 2 == 0 ==> 48 <= runes[j] && runes[j+1] <= 57)
+//@   loop 1: decreases len(runes) - i
+//@ func isDigitRunSkipSafe
+//@   props C19
+//@   opt elems_nonnil=regexp/syntax.Regexp
+//@   ensures result && (re.Op == 14 || re.Op == 15 || re.Op == 17) ==> len(re.Sub) == 1 && re.Sub[0].Op == 4 && len(re.Sub[0].Rune) == 2 && re.Sub[0].Rune[0] == 48 && re.Sub[0].Rune[1] == 57
+//@   ensures result ==> re != nil && (re.Op == 14 || re.Op == 15 || re.Op == 17 || re.Op == 18 || re.Op == 13)
